@@ -212,6 +212,23 @@ func c10Resolve(toks []interface{}, m *c10Mapping) []interface{} {
 				out = append(out, c10Tok("str", at.Add(time.Duration(sign)*time.Hour).UTC().Format(time.RFC3339Nano), g))
 			}
 			out = append(out, c10Tok("p", op, "L"), c10Tok("dur", "1h", "L"))
+		case "revrfc", "revdt", "revint":
+			// the duration on the left: 1h + <the instant minus 1h>
+			out = append(out, c10Tok("dur", "1h", g), c10Tok("p", "+", "L"))
+			before := at.Add(-time.Hour)
+			switch f {
+			case "revrfc":
+				out = append(out, c10Tok("str", before.UTC().Format(time.RFC3339Nano), "L"))
+			case "revdt":
+				if m.tz != "" {
+					out = append(out, c10Tok("str", before.UTC().Format(time.RFC3339Nano), "L"))
+				} else {
+					out = append(out, c10Tok("str", before.In(m.zone).Format("2006-01-02 15:04:05.999999999"), "L"))
+				}
+			default:
+				n := new(big.Int).Sub(m.nanos(k, d), big.NewInt(3600e9))
+				out = append(out, c10Tok("int", n.String(), "L"))
+			}
 		case "dur":
 			n := m.nanos(k, d)
 			if n.Sign() < 0 {
